@@ -159,6 +159,20 @@ class C04(Check):
             strings = list(fileh.tokens_upto(ALPHABET, n))
             for tftp in (False, True):
                 seen = set()
+                # witnesses of the known failure modes first (ENOTDIR, EISDIR, ENAMETOOLONG, traversal)
+                for pre in prefixes(cfg):
+                    for u in (pre + "/f.txt/a", pre + "/a/f.txt/..", pre + "/a", pre + "/a/", pre + "/../secret.txt",
+                              pre + "/%2e%2e/secret.txt", pre + "/..%2fsecret.txt", pre + "/../root-evil/f.txt",
+                              pre + "/a/../f.txt", pre + "/%2541", pre + "/f.txt%00", pre + "/a\\f.txt", pre + "/..a",
+                              pre + "//f.txt", pre + "/a//f.txt", pre + "/./f.txt", pre + "/f.txt/", pre + "/f.txt/."):
+                        if u not in seen:
+                            seen.add(u)
+                            yield {"tftp": tftp, "cfg": cfg, "uri": u}
+                    for seg in ("b" * 255, "b" * 256, "b" * 300, "%c3%a9" * 128):
+                        for u in (pre + "/" + seg, pre + "/a/" + seg + "/f.txt", pre + "/f.txt/" + seg):
+                            if u not in seen:
+                                seen.add(u)
+                                yield {"tftp": tftp, "cfg": cfg, "uri": u}
                 for pre in prefixes(cfg):
                     for s in strings:
                         for u in ((pre + s,) if not tftp else (pre + s, (pre + s)[1:])):
@@ -179,12 +193,6 @@ class C04(Check):
                     if u not in seen:
                         seen.add(u)
                         yield {"tftp": tftp, "cfg": cfg, "uri": u}
-                    for seg in ("b" * 255, "b" * 256, "b" * 300, "%c3%a9" * 128):
-                        for u in (pre + "/" + seg, pre + "/a/" + seg + "/f.txt", pre + "/f.txt/" + seg,
-                                  pre + "/f.txt/a", pre + "/a/f.txt/..", pre + "/a"):
-                            if u not in seen:
-                                seen.add(u)
-                                yield {"tftp": tftp, "cfg": cfg, "uri": u}
 
     # ---- implementation
     def impl(self, c):
@@ -263,11 +271,13 @@ class C04(Check):
             else:
                 toks.append(u[i])
                 i += 1
+        if len(toks) > 40:
+            yield dict(c, uri="".join(toks[:len(toks) // 2]))
+            yield dict(c, uri="".join(toks[len(toks) // 2:]))
+            yield dict(c, uri="".join(toks[:len(toks) * 3 // 4]))
+            return
         for i in range(len(toks)):
             yield dict(c, uri="".join(toks[:i] + toks[i + 1:]))
-        if len(u) > 40:
-            yield dict(c, uri=u[:len(u) // 2])
-            yield dict(c, uri=u[len(u) // 2:])
 
 
 if __name__ == "__main__":
